@@ -61,7 +61,9 @@ class World(object):
             f.write("a\n1\n")
         os.chdir(self.root)
         self.progs = {}
+        self.params = {}
         self.lib = None
+        self.wrap = False
 
     def wd(self, w):
         return {"none": None, "abs": os.path.join(self.root, "wd"), "rel": "wd", "empty": ""}[w]
@@ -81,6 +83,14 @@ class World(object):
         return self.progs[key]
 
     def param(self, p):
+        """parameter objects live as long as the command classes that declare them: one object per configuration for the whole check, so state kept
+        inside a parameter object (a cache, a flag) meets every later environment and raw value"""
+        key = json.dumps(p)
+        if key not in self.params:
+            self.params[key] = self._param(p)
+        return self.params[key]
+
+    def _param(self, p):
         P = self.P
         k = p[0]
         if k == "String":
@@ -97,7 +107,7 @@ class World(object):
             fz = {"any": None, "fuzzy": True, "nonfuzzy": False}[p[2]]
             return P.ResultParameter(want, is_fuzzy=fz)
         if k == "List":
-            return P.ListParameter(self.param(p[1]))
+            return P.ListParameter(self._param(p[1]))
         if k == "Tuple":
             return P.TupleParameter()
         if k == "Data":
@@ -136,6 +146,10 @@ class World(object):
             return r[k % len(r)]
         if t in ("list", "pytuple"):
             items = [self.make(x, prog, k + i) for i, x in enumerate(v[1])]
+            if self.wrap and t == "list":        # as the parser delivers a nested list: inner lists wrapped as list arguments
+                from mpilot.arguments import ListArgument
+
+                items = [ListArgument("P", x, lineno=7, list_linenos=[7] * len(x)) if isinstance(x, list) else x for x in items]
             return items if t == "list" else tuple(items)
         if t == "dict":
             return {"strs": {"a": "b", "Color": "Blue"}, "mixed": {"a": 1, "k": 2.5}, "empty": {}}[v[1]]
@@ -250,6 +264,8 @@ class World(object):
 
     def freeze(self, x):
         np = self.np
+        if type(x).__name__ in ("Argument", "ListArgument") and hasattr(x, "value"):
+            return ("arg", type(x).__name__, id(x), getattr(x, "lineno", None), self.freeze(x.value))
         if isinstance(x, np.ndarray):
             return ("arr", x.dtype.str, x.shape, np.ma.getdata(x).tobytes(), np.ma.getmaskarray(x).tobytes())
         if isinstance(x, self.Command):
@@ -260,6 +276,14 @@ class World(object):
             return (type(x).__name__, tuple(self.freeze(y) for y in x))
         return (type(x).__name__, repr(x))
 
+    def unwrap(self, x):
+        """the plain value behind parser wrappers (a fresh structure for lists)"""
+        if type(x).__name__ in ("Argument", "ListArgument") and hasattr(x, "value"):
+            return self.unwrap(x.value)
+        if isinstance(x, list):
+            return [self.unwrap(y) for y in x]
+        return x
+
     def freeze_program(self, prog):
         return (prog.working_dir, tuple((name, id(c), c.is_finished, getattr(c, "is_running", False), id(c._result), len(c.arguments))
                                         for name, c in prog.commands.items()), tuple(sorted(prog.command_library)))
@@ -268,14 +292,17 @@ class World(object):
         return self.freeze(a) == self.freeze(b)
 
 
-def observe(world, case, k):
+def observe(world, case, k, wrap=False):
     from . import tracer
 
     p, v, env = case["p"], case["v"], case["env"]
     prog = world.program(env)
     param = world.param(p)
+    world.wrap = wrap
     raw = world.make(v, prog, k)
+    world.wrap = False
     snap = world.freeze(raw)
+    plain = world.unwrap(raw)
     psnap = world.freeze_program(prog)
     n0 = len([e for e in tracer.EV if e["ev"] == "exec_begin"])
 
@@ -288,11 +315,11 @@ def observe(world, case, k):
     r1 = call(raw)
     r2 = call(raw)
     if r1[0] == "ok":
-        kind = world.classify(r1[1], p, v, raw)
+        kind = world.classify(r1[1], p, v, plain)
         repeat = r2[0] == "ok" and world.equal(r1[1], r2[1])
         r3 = call(r1[1])
         idem = "err" if r3[0] == "err" else ("same" if world.equal(r3[1], r1[1]) else "diff")
-        valeq = world.matches(world.expected_value(p, raw, prog, True), r1[1])
+        valeq = world.matches(world.expected_value(p, plain, prog, True), r1[1])
         out = ["ok", kind]
         shown = repr(r1[1])[:120]
     else:
@@ -323,7 +350,8 @@ def check_C20(tier):
     for ci, case in enumerate(cases):
         nrep = reps if case["v"][0] not in ("list", "pytuple") or len(json.dumps(case["v"])) < 60 else 1
         for k in range(nrep):
-            obs, rawtxt, shown = observe(world, case, k + core.SEED)
+            nested = case["v"][0] == "list" and any(x[0] == "list" for x in case["v"][1])
+            obs, rawtxt, shown = observe(world, case, k + core.SEED, wrap=nested and k == nrep - 1)
             rid = len(records)
             records.append({"id": rid, "p": case["p"], "v": case["v"], "env": case["env"], "obs": obs})
             meta[rid] = (case, rawtxt, shown)
